@@ -304,8 +304,9 @@ struct cfg {
   int ops[3][2]; /* per worker up to 2 ops, -1 = none */
   int bound;
 };
-enum { OP_SEND, OP_NOTIFY, OP_SESSION, OP_RESOURCE, OP_CACHE, OP_REF, OP_SEND_DEAD, OP_ASYNC_TRIGGER, OP_NOPS };
-static const char *op_names[] = {"send", "notify", "session", "resource", "cache", "ref", "send-dead", "async-trigger"};
+enum { OP_SEND, OP_NOTIFY, OP_SESSION, OP_RESOURCE, OP_CACHE, OP_REF, OP_SEND_DEAD, OP_ASYNC_TRIGGER, OP_NEWPEER, OP_NOPS };
+static coap_session_t *extra_sess[MAXT];
+static const char *op_names[] = {"send", "notify", "session", "resource", "cache", "ref", "send-dead", "async-trigger", "new-peer"};
 
 static struct cfg *C;
 static coap_context_t *ctx;
@@ -323,6 +324,7 @@ hnd_get(coap_resource_t *resource, coap_session_t *session, const coap_pdu_t *re
         coap_pdu_t *response) {
   (void)query;
   last_callback = "request-handler";
+  sched_point("in-callback:request-handler"); /* the application may be preempted inside its callback */
   handler_calls++;
   vx_observe("cb request-handler in %s (call %d)", my_id >= 0 ? T[my_id].name : "main", handler_calls);
   /* re-enter the public API from inside the callback */
@@ -349,6 +351,7 @@ resp_handler(coap_session_t *session, const coap_pdu_t *sent, const coap_pdu_t *
   (void)sent;
   (void)mid;
   last_callback = "response-handler";
+  sched_point("in-callback:response-handler"); /* the application may be preempted inside its callback */
   vx_observe("cb response-handler in %s", my_id >= 0 ? T[my_id].name : "main");
   coap_opt_iterator_t oi;
   if (!coap_check_option(received, COAP_OPTION_OBSERVE, &oi))
@@ -373,6 +376,7 @@ nack_handler(coap_session_t *session, const coap_pdu_t *sent, const coap_nack_re
   (void)reason;
   (void)mid;
   last_callback = "nack-handler";
+  sched_point("in-callback:nack-handler"); /* the application may be preempted inside its callback */
   nack_seen++;
   vx_observe("cb nack-handler in %s", my_id >= 0 ? T[my_id].name : "main");
   (void)coap_session_get_state(session);
@@ -382,6 +386,7 @@ static int
 event_handler(coap_session_t *session, const coap_event_t event) {
   (void)event;
   last_callback = "event-handler";
+  sched_point("in-callback:event-handler"); /* the application may be preempted inside its callback */
   ev_seen++;
   vx_observe("cb event-handler in %s", my_id >= 0 ? T[my_id].name : "main");
   (void)coap_session_get_type(session);
@@ -456,6 +461,18 @@ do_op(int op, int w) {
   case OP_ASYNC_TRIGGER:
     do_send(cs, 1, "q", "a", (uint8_t)(0x30 + w));
     break;
+  case OP_NEWPEER: {
+    /* a request from a new local address: the I/O thread will raise SERVER_SESSION_NEW (an event callback that runs with
+     * the global lock held) while the API threads are still active */
+    coap_address_t la;
+    ns_addr(&la, 40 + w, 7000 + w);
+    coap_session_t *s = coap_new_client_session(ctx, &la, &srv, COAP_PROTO_UDP);
+    if (s) {
+      do_send(s, 0, "r", NULL, (uint8_t)(0x40 + w));
+      extra_sess[w] = s;
+    }
+    break;
+  }
   }
 }
 
@@ -663,6 +680,11 @@ run(void *arg) {
   vx_outcome("req=%d resp=%d nack=%d", req_sent, resp_seen, nack_seen);
   coap_session_release(cs);
   coap_session_release(dead);
+  for (int w = 0; w < MAXT; w++)
+    if (extra_sess[w]) {
+      coap_session_release(extra_sess[w]);
+      extra_sess[w] = NULL;
+    }
   ns_unregister_ctx(ctx);
   coap_free_context(ctx);
   ns_fini();
@@ -724,7 +746,9 @@ main(int argc, char **argv) {
   add(2, OP_SEND, OP_NOTIFY, OP_SESSION, OP_SEND, -1, -1, T_ ? 2 : 1);
   add(2, OP_NOTIFY, OP_RESOURCE, OP_SEND_DEAD, OP_REF, -1, -1, T_ ? 2 : 1);
   add(2, OP_ASYNC_TRIGGER, OP_SEND, OP_CACHE, OP_NOTIFY, -1, -1, T_ ? 2 : 1);
+  add(2, OP_NEWPEER, OP_SEND, OP_NOTIFY, OP_REF, -1, -1, T_ ? 2 : 1);
   /* three workers */
+  add(3, OP_NEWPEER, -1, OP_SEND, -1, OP_REF, -1, T_ ? 2 : 1);
   add(3, OP_SEND, -1, OP_NOTIFY, -1, OP_SESSION, -1, T_ ? 2 : 1);
   add(3, OP_SEND, -1, OP_SEND, -1, OP_SEND_DEAD, -1, T_ ? 2 : 1);
   if (T_) {
@@ -733,8 +757,8 @@ main(int argc, char **argv) {
   }
   vx_ev_rule("real pthreads (I/O thread in coap_io_process + 2-3 API threads, 1-2 public API calls each from the menu send / notify / "
              "session create+release / resource add+delete / cache / reference+release / send to a dead peer (give-up => NACK callback) / "
-             "async trigger; request, response, NACK and event callbacks re-enter the public API) under a cooperative scheduler with "
-             "scheduling points at every operation on libcoap's global lock, the blocking epoll_wait, thread start/exit; all schedules with "
+             "async trigger / request from a new local address (=> SERVER_SESSION_NEW event callback, lock held, in the I/O thread); request, response, NACK and event callbacks re-enter the public API) under a cooperative scheduler with "
+             "scheduling points at every operation on libcoap's global lock, inside every application callback, the blocking epoll_wait, thread start/exit; all schedules with "
              "<= bound preemptions; non-trivial = at least one preemption; distinct = distinct observation logs");
   vx_ev_assumption("library configuration = coap_config.h/coap_defines.h emitted by the repository's CMake configure step on the current tree; built -DNDEBUG like the shipped RelWithDebInfo build");
   vx_ev_assumption("sequential consistency; scheduling points only at lock operations and I/O waits (unsynchronised accesses are the business of the separate TSan pass)");
